@@ -299,12 +299,8 @@ def legacy_cli_arguments(chk, mn, params) -> None:
     chk.expect(flags == sorted("--" + p.replace("_", "-") for p in params[1:]), "cli-arguments", mn.where, "one boolean switch per option", "the set of boolean switches differs from find_clashes' options", K(mn, "cli-flags"), found=flags)
 
 
-def check_cli(chk, fi) -> None:
-    repo = chk.repo
-    # ---- CLI -----------------------------------------------------------------------------------------------
-    mn = repo.func(M, "main")
-    chk.note_function(mn)
-    params = [a.arg for a in fi.node.args.args]
+def legacy_csv_metadata_arg(chk, mn) -> None:
+    """Pinned form of `csv-metadata-arg` (fallback when main cannot be evaluated)."""
     # CSV: read_metadata(file: IO) needs an open file (it uses file.name), not the path string
     for c2 in astq.calls(mn.node, "read_metadata"):
         a0 = c2.args[0] if c2.args else None
@@ -321,12 +317,21 @@ def check_cli(chk, fi) -> None:
             chk.violation("csv-metadata-arg", mn.site(c2), f"read_metadata (which reads file.name) receives the path string `{norm(a0)}`: --csv raises AttributeError as soon as one clash is found, no CSV is written", K(mn, f"read_metadata({norm(a0)})"))
         else:
             chk.error("csv-metadata-arg", mn.site(c2), f"argument `{norm(a0) if a0 is not None else None}` of read_metadata not classified (path or open file)")
+
+
+def check_cli(chk, fi) -> None:
+    repo = chk.repo
+    # ---- CLI -----------------------------------------------------------------------------------------------
+    mn = repo.func(M, "main")
+    chk.note_function(mn)
+    params = [a.arg for a in fi.node.args.args]
     # report and CSV: fact-level first (main evaluated on a representative clash list), pinned forms as the fallback
     from checks import c17e
 
     why = c17e.check_main(chk, mn, fi)  # incl. the fact-level `cli-arguments` (evaluated call of find_clashes)
     if why is not None:
         legacy_cli_arguments(chk, mn, params)
+        legacy_csv_metadata_arg(chk, mn)
     # accumulators read what they write
     n_acc = 0
     for s in ast.walk(mn.node):
